@@ -175,6 +175,45 @@ DOSHEADER_X64 = bytes.fromhex("554889e54881")
 DOSHEADER_X86 = bytes.fromhex("e8000000005b")
 
 
+def _find_dos_header(fh: BinaryIO, start_offset: int = 0, maxrange: int = 1024) -> Optional[Tuple[int, int]]:
+    """Find the IMAGE_DOS_HEADER and return a tuple ``(offset, Machine)`` or ``None`` if it cannot be found.
+
+    A candidate offset needs an `e_lfanew` beyond the DOS header and within `maxrange` that leads to an
+    `IMAGE_FILE_HEADER.Machine` of x86 or x64 followed by the matching `IMAGE_OPTIONAL_HEADER.Magic`. Bytes in front of
+    the image together with the first bytes of the image can also form such a candidate (the loader stub in the DOS
+    header contains small dwords that are then read as `e_lfanew`), so of the candidates that lead to the same PE
+    header the last one is returned.
+
+    Side effects: file handle position due to seeking
+    """
+    start_offset = start_offset if start_offset is not None else fh.tell()
+    optional_magic = {
+        pestruct.IMAGE_FILE_MACHINE_I386: b"\x0b\x01",
+        pestruct.IMAGE_FILE_MACHINE_AMD64: b"\x0b\x02",
+    }
+    dos_header_size = len(pestruct.IMAGE_DOS_HEADER)
+    found = None
+    pe_offset = None
+    for offset in range(maxrange):
+        if pe_offset is not None and start_offset + offset + dos_header_size > pe_offset:
+            break
+        fh.seek(start_offset + offset, io.SEEK_SET)
+        try:
+            mz = pestruct.IMAGE_DOS_HEADER(fh)
+            if mz.e_lfanew >= dos_header_size and mz.e_lfanew < maxrange:
+                candidate_pe_offset = start_offset + offset + mz.e_lfanew
+                if pe_offset is not None and candidate_pe_offset != pe_offset:
+                    continue
+                fh.seek(candidate_pe_offset + 4)
+                image = pestruct.IMAGE_FILE_HEADER(fh)
+                if image.Machine in optional_magic and fh.read(2) == optional_magic[image.Machine]:
+                    found = (start_offset + offset, image.Machine)
+                    pe_offset = candidate_pe_offset
+        except EOFError:
+            continue
+    return found
+
+
 def find_mz_offset(fh: BinaryIO, start_offset: int = 0, maxrange: int = 1024) -> Optional[int]:
     """Find and return the start offset of a valid IMAGE_DOS_HEADER or ``None`` if it cannot be found.
 
@@ -190,22 +229,8 @@ def find_mz_offset(fh: BinaryIO, start_offset: int = 0, maxrange: int = 1024) ->
     Returns:
         offset of the start of IMAGE_DOS_HEADER in the file object or ``None`` if it's not found
     """
-    start_offset = start_offset if start_offset is not None else fh.tell()
-    for offset in range(maxrange):
-        fh.seek(start_offset + offset, io.SEEK_SET)
-        try:
-            mz = pestruct.IMAGE_DOS_HEADER(fh)
-            if mz.e_lfanew > 0 and mz.e_lfanew < maxrange:
-                fh.seek(start_offset + offset + 4 + mz.e_lfanew)
-                image = pestruct.IMAGE_FILE_HEADER(fh)
-                if image.Machine in (
-                    pestruct.IMAGE_FILE_MACHINE_AMD64,
-                    pestruct.IMAGE_FILE_MACHINE_I386,
-                ):
-                    return start_offset + offset
-        except EOFError:
-            continue
-    return None
+    found = _find_dos_header(fh, start_offset=start_offset, maxrange=maxrange)
+    return found[0] if found else None
 
 
 def find_compile_stamps(
@@ -400,18 +425,7 @@ def find_architecture(fh: BinaryIO, start_offset: int = 0, maxrange: int = 1024)
     Returns:
         ``"x86"`` or ``"x64"``, ``None`` if not found.
     """
-    start_offset = start_offset if start_offset is not None else fh.tell()
-    for offset in range(maxrange):
-        fh.seek(start_offset + offset, io.SEEK_SET)
-        try:
-            mz = pestruct.IMAGE_DOS_HEADER(fh)
-            if mz.e_lfanew > 0 and mz.e_lfanew < maxrange:
-                fh.seek(start_offset + offset + 4 + mz.e_lfanew)
-                image = pestruct.IMAGE_FILE_HEADER(fh)
-                if image.Machine == pestruct.IMAGE_FILE_MACHINE_AMD64:
-                    return "x64"
-                elif image.Machine == pestruct.IMAGE_FILE_MACHINE_I386:
-                    return "x86"
-        except EOFError:
-            continue
-    return None
+    found = _find_dos_header(fh, start_offset=start_offset, maxrange=maxrange)
+    if found is None:
+        return None
+    return "x64" if found[1] == pestruct.IMAGE_FILE_MACHINE_AMD64 else "x86"
